@@ -8,8 +8,9 @@
    Modelling decisions (stated once):
    * integers: `LInt lo hi` = Z restricted to lo..hi (i32 = LInt (-2^31) (2^31-1), u8 = LInt 0 255, ...);
      MIN / MAX are lo / hi.  No arithmetic is performed by any lattice operation, so there is no overflow.
-   * Set<T>: canonical strictly increasing duplicate-free lists of Z (BTreeSet<i32> observed through its
-     sorted iteration order); `insert` / `contains` / `len` are the list functions below.
+   * Set<T> / BoundedSet<N, T>: canonical strictly increasing (w.r.t. T's Ord::cmp) duplicate-free lists
+     (the BTreeSet observed through its sorted iteration order), for every element type T of the syntax
+     that implements Ord; `insert` / `contains` / `len` / `is_subset` are the list functions below.
    * Rc / Arc / Box: the pointee (sharing, make_mut, try_unwrap-or-clone are ownership glue).
    * `ocmp` is `Ord::cmp` where the Rust type implements `Ord` (None otherwise); `pcmp` is
      `PartialOrd::partial_cmp`; the comparison operators `<  <=  >  >=` are the PartialOrd defaults derived
@@ -399,111 +400,120 @@ Definition ProdArrLat (n : nat) (L : LatImpl) : LatImpl := {|
   bnd := match bnd L with Some (b, t) => Some (repeat b n, repeat t n) | None => None end
 |}.
 
-(* ---------------------------------------------------------------- Set<T> (BTreeSet as sorted list) *)
-Fixpoint set_insert (x : Z) (s : list Z) : list Z :=
-  match s with
-  | [] => [x]
-  | y :: s' => match Z.compare x y with
-               | Lt => x :: s
-               | Eq => s
-               | Gt => y :: set_insert x s'
-               end
-  end.
-Fixpoint set_contains (s : list Z) (x : Z) : bool :=
-  match s with [] => false | y :: s' => Z.eqb x y || set_contains s' x end.
-Definition set_len (s : list Z) : Z := Z.of_nat (length s).
-Definition set_is_subset (a b : list Z) : bool := forallb (set_contains b) a.
-Fixpoint set_sorted (s : list Z) : bool :=
-  match s with
-  | x :: ((y :: _) as s') => Z.ltb x y && set_sorted s'
-  | _ => true
-  end.
+(* ---------------------------------------------------------------- Set<T: Ord> (BTreeSet as sorted list) *)
+(* E is the element type; BTreeSet navigates with Ord::cmp (cmp_of E) and compares sets with T's == *)
+Section SetModel.
+  Variable E : LatImpl.
+  Notation elt := (carrier E).
 
-Definition set_pcmp (a b : list Z) : option comparison :=
-  if list_eqb Z.eqb a b then Some Eq
-  else if set_is_subset a b then Some Lt
-  else if set_is_subset b a then Some Gt        (* is_superset *)
-  else None.
+  Fixpoint set_insert (x : elt) (s : list elt) : list elt :=
+    match s with
+    | [] => [x]
+    | y :: s' => match cmp_of E x y with
+                 | Lt => x :: s
+                 | Eq => s                      (* already present: the set keeps the old element *)
+                 | Gt => y :: set_insert x s'
+                 end
+    end.
+  Fixpoint set_contains (s : list elt) (x : elt) : bool :=
+    match s with
+    | [] => false
+    | y :: s' => match cmp_of E x y with Eq => true | _ => set_contains s' x end
+    end.
+  Definition set_len (s : list elt) : Z := Z.of_nat (length s).
+  Definition set_is_subset (a b : list elt) : bool := forallb (set_contains b) a.
+  Fixpoint set_sorted (s : list elt) : bool :=
+    match s with
+    | x :: ((y :: _) as s') => match cmp_of E x y with Lt => set_sorted s' | _ => false end
+    | _ => true
+    end.
 
-Definition set_meet_mut (self other : list Z) : list Z * bool :=
-  let self_len := set_len self in
-  let old_self := self in
-  let self0 : list Z := [] in                               (* swap(&mut self.0, &mut old_self) *)
-  let '(self1, other1) :=
-    if Z.gtb (set_len self0) (set_len other) then (other, self0) else (self0, other) in  (* never taken *)
-  let self2 := fold_left (fun acc item => if set_contains other1 item then set_insert item acc else acc) old_self self1 in
-  (self2, negb (Z.eqb self_len (set_len self2))).
+  Definition set_pcmp (a b : list elt) : option comparison :=
+    if list_eqb (eqb E) a b then Some Eq
+    else if set_is_subset a b then Some Lt
+    else if set_is_subset b a then Some Gt        (* is_superset *)
+    else None.
 
-Definition set_join_mut (self other : list Z) : list Z * bool :=
-  let self_len := set_len self in
-  let '(self1, other1) := if Z.ltb self_len (set_len other) then (other, self) else (self, other) in
-  let self2 := fold_left (fun acc item => set_insert item acc) other1 self1 in
-  (self2, negb (Z.eqb self_len (set_len self2))).
+  Definition set_meet_mut (self other : list elt) : list elt * bool :=
+    let self_len := set_len self in
+    let old_self := self in
+    let self0 : list elt := [] in                             (* swap(&mut self.0, &mut old_self) *)
+    let '(self1, other1) :=
+      if Z.gtb (set_len self0) (set_len other) then (other, self0) else (self0, other) in  (* never taken *)
+    let self2 := fold_left (fun acc item => if set_contains other1 item then set_insert item acc else acc) old_self self1 in
+    (self2, negb (Z.eqb self_len (set_len self2))).
 
-Definition SetLat : LatImpl := {|
-  carrier := list Z;
-  wfb := set_sorted;
-  eqb := list_eqb Z.eqb;
-  pcmp := set_pcmp;
-  ocmp := None;
-  mm := set_meet_mut;
-  jm := set_join_mut;
-  mv := dflt set_meet_mut;          (* overridden in set.rs with the same body as the default *)
-  jv := dflt set_join_mut;
-  bnd := None
-|}.
+  Definition set_join_mut (self other : list elt) : list elt * bool :=
+    let self_len := set_len self in
+    let '(self1, other1) := if Z.ltb self_len (set_len other) then (other, self) else (self, other) in
+    let self2 := fold_left (fun acc item => set_insert item acc) other1 self1 in
+    (self2, negb (Z.eqb self_len (set_len self2))).
 
-(* ---------------------------------------------------------------- BoundedSet<BOUND, T>: None = TOP *)
-Definition bset_pcmp (a b : option (list Z)) : option comparison :=
-  match a, b with
-  | None, None => Some Eq
-  | None, _ => Some Gt
-  | _, None => Some Lt
-  | Some s1, Some s2 => set_pcmp s1 s2
-  end.
-Definition bset_meet_mut (self other : option (list Z)) : option (list Z) * bool :=
-  match self, other with
-  | None, None => (None, false)
-  | None, Some s2 => (Some s2, true)
-  | Some _, None => (self, false)
-  | Some s1, Some s2 => let '(v, f) := set_meet_mut s1 s2 in (Some v, f)
-  end.
-Definition bset_join_mut (bound : Z) (self other : option (list Z)) : option (list Z) * bool :=
-  match self, other with
-  | None, _ => (None, false)
-  | Some _, None => (None, true)
-  | Some s1, Some s2 =>
-      let '(v, changed) := set_join_mut s1 s2 in
-      if Z.gtb (set_len v) bound then (None, true) else (Some v, changed)
-  end.
-Definition bset_meet (self other : option (list Z)) : option (list Z) :=
-  match self, other with
-  | None, None => None
-  | None, Some s2 => Some s2
-  | Some s1, None => Some s1
-  | Some s1, Some s2 => Some (dflt set_meet_mut s1 s2)
-  end.
-Definition bset_join (bound : Z) (self other : option (list Z)) : option (list Z) :=
-  match self, other with
-  | None, _ => None
-  | _, None => None
-  | Some s1, Some s2 =>
-      let res := dflt set_join_mut s1 s2 in
-      if Z.gtb (set_len res) bound then None else Some res
-  end.
+  Definition SetLat : LatImpl := {|
+    carrier := list elt;
+    wfb s := forallb (wfb E) s && set_sorted s;
+    eqb := list_eqb (eqb E);
+    pcmp := set_pcmp;
+    ocmp := None;
+    mm := set_meet_mut;
+    jm := set_join_mut;
+    mv := dflt set_meet_mut;          (* overridden in set.rs with the same body as the default *)
+    jv := dflt set_join_mut;
+    bnd := None
+  |}.
 
-Definition BSetLat (bound : Z) : LatImpl := {|
-  carrier := option (list Z);
-  wfb a := match a with Some s => set_sorted s && Z.leb (set_len s) bound | None => true end;
-  eqb := opt_eqb (list_eqb Z.eqb);
-  pcmp := bset_pcmp;
-  ocmp := None;
-  mm := bset_meet_mut;
-  jm := bset_join_mut bound;
-  mv := bset_meet;
-  jv := bset_join bound;
-  bnd := Some (Some [], None)       (* bottom = new(), top = TOP *)
-|}.
+  (* -------------------------------------------------------------- BoundedSet<BOUND, T>: None = TOP *)
+  Definition bset_pcmp (a b : option (list elt)) : option comparison :=
+    match a, b with
+    | None, None => Some Eq
+    | None, _ => Some Gt
+    | _, None => Some Lt
+    | Some s1, Some s2 => set_pcmp s1 s2
+    end.
+  Definition bset_meet_mut (self other : option (list elt)) : option (list elt) * bool :=
+    match self, other with
+    | None, None => (None, false)
+    | None, Some s2 => (Some s2, true)
+    | Some _, None => (self, false)
+    | Some s1, Some s2 => let '(v, f) := set_meet_mut s1 s2 in (Some v, f)
+    end.
+  Definition bset_join_mut (bound : Z) (self other : option (list elt)) : option (list elt) * bool :=
+    match self, other with
+    | None, _ => (None, false)
+    | Some _, None => (None, true)
+    | Some s1, Some s2 =>
+        let '(v, changed) := set_join_mut s1 s2 in
+        if Z.gtb (set_len v) bound then (None, true) else (Some v, changed)
+    end.
+  Definition bset_meet (self other : option (list elt)) : option (list elt) :=
+    match self, other with
+    | None, None => None
+    | None, Some s2 => Some s2
+    | Some s1, None => Some s1
+    | Some s1, Some s2 => Some (dflt set_meet_mut s1 s2)
+    end.
+  Definition bset_join (bound : Z) (self other : option (list elt)) : option (list elt) :=
+    match self, other with
+    | None, _ => None
+    | _, None => None
+    | Some s1, Some s2 =>
+        let res := dflt set_join_mut s1 s2 in
+        if Z.gtb (set_len res) bound then None else Some res
+    end.
+
+  Definition BSetLat (bound : Z) : LatImpl := {|
+    carrier := option (list elt);
+    wfb a := match a with Some s => forallb (wfb E) s && set_sorted s && Z.leb (set_len s) bound | None => true end;
+    eqb := opt_eqb (list_eqb (eqb E));
+    pcmp := bset_pcmp;
+    ocmp := None;
+    mm := bset_meet_mut;
+    jm := bset_join_mut bound;
+    mv := bset_meet;
+    jv := bset_join bound;
+    bnd := Some (Some [], None)       (* bottom = new(), top = TOP *)
+  |}.
+End SetModel.
 
 (* ---------------------------------------------------------------- ConstPropagation<T> *)
 Inductive cp (T : Type) : Type := CBot | CConst (x : T) | CTop.
@@ -577,7 +587,7 @@ Inductive lty : Type :=
   | LOption (t : lty) | LRc (t : lty) | LArc (t : lty) | LBox (t : lty)
   | LReverse (t : lty) | LDual (t : lty) | LOrd (t : lty)
   | LTuple (ts : ltys) | LProd (ts : ltys) | LProdArr (n : nat) (t : lty)
-  | LSet | LBSet (bound : Z) | LCP (t : lty)
+  | LSet (t : lty) | LBSet (bound : Z) (t : lty) | LCP (t : lty)
 with ltys : Type :=
   | LOne (t : lty) | LCons (t : lty) (ts : ltys).
 
@@ -596,8 +606,8 @@ Fixpoint denote (t : lty) : LatImpl :=
   | LTuple ts => TupleLat (denotes ts)
   | LProd ts => ProdLat (denotes ts)
   | LProdArr n t => ProdArrLat n (denote t)
-  | LSet => SetLat
-  | LBSet n => BSetLat n
+  | LSet t => SetLat (denote t)
+  | LBSet n t => BSetLat (denote t) n
   | LCP t => CPLat (denote t)
   end
 with denotes (ts : ltys) : CList :=
@@ -613,12 +623,13 @@ Definition chas_ord (C : CList) : bool := match clex_cmp C with Some _ => true |
 Fixpoint wf_lty (t : lty) : bool :=
   match t with
   | LInt lo hi => Z.leb lo hi
-  | LBool | LUnit | LSet => true
+  | LBool | LUnit => true
   | LOption t | LRc t | LArc t | LBox t | LReverse t | LDual t | LCP t | LProdArr _ t => wf_lty t
   | LOrd t => wf_lty t && has_ord (denote t)
   | LTuple ts => wf_ltys ts && chas_ord (denotes ts)
   | LProd ts => wf_ltys ts
-  | LBSet n => Z.leb 0 n
+  | LSet t => wf_lty t && has_ord (denote t)
+  | LBSet n t => wf_lty t && has_ord (denote t) && Z.leb 0 n
   end
 with wf_ltys (ts : ltys) : bool :=
   match ts with
